@@ -440,9 +440,15 @@ pub fn read_wig(c: &Case, bytes: Vec<u8>, out: &mut String) {
                         q[5].parse().unwrap()
                     };
                     match rd.get_zoom_interval(&q[2], s, e, lvl) {
-                        Err(e) => writeln!(out, "A {} err Zoom{}", $qi, {
+                        Err(e) => writeln!(out, "A {} err {}", $qi, {
                             let d = format!("{:?}", e);
-                            if d.starts_with("ReductionLevelNotFound") { String::new() } else { format!(":{}", d.split('(').next().unwrap()) }
+                            if d.contains("InvalidChromosome") {
+                                "InvalidChromosome".to_string()
+                            } else if d.starts_with("ReductionLevelNotFound") {
+                                "Zoom".to_string()
+                            } else {
+                                format!("Zoom:{}", d.split('(').next().unwrap())
+                            }
                         }).unwrap(),
                         Ok(it) => {
                             let mut line = format!("A {} ok", $qi);
@@ -596,9 +602,15 @@ pub fn read_bed(c: &Case, bytes: Vec<u8>, out: &mut String) {
                         q[5].parse().unwrap()
                     };
                     match rd.get_zoom_interval(&q[2], s, e, lvl) {
-                        Err(e) => writeln!(out, "A {} err Zoom{}", $qi, {
+                        Err(e) => writeln!(out, "A {} err {}", $qi, {
                             let d = format!("{:?}", e);
-                            if d.starts_with("ReductionLevelNotFound") { String::new() } else { format!(":{}", d.split('(').next().unwrap()) }
+                            if d.contains("InvalidChromosome") {
+                                "InvalidChromosome".to_string()
+                            } else if d.starts_with("ReductionLevelNotFound") {
+                                "Zoom".to_string()
+                            } else {
+                                format!("Zoom:{}", d.split('(').next().unwrap())
+                            }
                         }).unwrap(),
                         Ok(it) => {
                             let mut line = format!("A {} ok", $qi);
